@@ -127,8 +127,13 @@ REDUCERS = {1: reducer_1, 2: reducer_2, 3: reducer_3, 4: reducer_4, 5: reducer_5
 N_MARKERS = len(REDUCERS)
 
 
+EMPTY = 0  # result marker standing for an explicit, empty mapping (result_reducers={}): results get NO user reducer
+
+
 def rmap(k):
     """A NEW dict each time (reusable-executor kwargs must compare equal by value)."""
+    if k == EMPTY:
+        return {}
     return None if k is None else {Payload: REDUCERS[k]}
 
 
@@ -606,9 +611,9 @@ def judge_echo(J, Rk, seen, marks):
     seen: marks the worker saw on the argument; marks: marks on the result.
     Returns [(clause, text)]."""
     out = []
-    own = {k for k in (J, Rk) if k is not None}
+    own = {k for k in (J, Rk) if k is not None and k != EMPTY}
     exp_arg = (J,) if J is not None else ()
-    exp_res = (Rk,) if Rk is not None else exp_arg
+    exp_res = () if Rk == EMPTY else (Rk,) if Rk is not None else exp_arg
     seen = tuple(seen) if seen is not None else None
     marks = tuple(marks)
     if seen != exp_arg:
@@ -668,9 +673,9 @@ def gen_A(rng, max_exec=2):
     names = [None, "", "cloudpickle", "pickle", "pickle", "cloudpickle"]
 
     def shape():
-        s = rng.choice(["E1", "E1", "E2", "E2", "E3", "E4", "E0"])
+        s = rng.choice(["E1", "E1", "E2", "E2", "E3", "E4", "E0", "E5"])
         a, b = rng.sample(range(1, N_MARKERS + 1), 2)
-        return {"E0": (None, None), "E1": (a, None), "E2": (a, b), "E3": (None, b), "E4": (a, a)}[s]
+        return {"E0": (None, None), "E1": (a, None), "E2": (a, b), "E3": (None, b), "E4": (a, a), "E5": (a, EMPTY)}[s]
 
     def mk():
         return rng.randint(1, N_MARKERS) if rng.random() < 0.75 else None
@@ -951,12 +956,12 @@ def order_sig_A(job):
 
 def gen_B(rng):
     n = rng.choice([2, 2, 3, 3, 4])
-    chosen = ["E0", rng.choice(["E1", "E2", "E3"])] + [rng.choice(["E0", "E1", "E2", "E3", "E4"]) for _ in range(n - 2)]
+    chosen = ["E0", rng.choice(["E1", "E2", "E3"])] + [rng.choice(["E0", "E1", "E2", "E3", "E4", "E5"]) for _ in range(n - 2)]
     rng.shuffle(chosen)
     execs = []
     for i, s in enumerate(chosen):
         a, b = 2 * i + 1, 2 * i + 2
-        J, Rk = {"E0": (None, None), "E1": (a, None), "E2": (a, b), "E3": (None, b), "E4": (a, a)}[s]
+        J, Rk = {"E0": (None, None), "E1": (a, None), "E2": (a, b), "E3": (None, b), "E4": (a, a), "E5": (a, EMPTY)}[s]
         execs.append({"id": i, "shape": s, "kind": "reusable" if rng.random() < 0.3 else "ppe", "job": J, "result": Rk})
     lanes = []
     reusable_lane = []
